@@ -564,13 +564,18 @@ class ClientH(object):
                     h(self, seq, msg)
         self._note_status()
 
-    def send(self, payload, retry=RetryMode.NONE, callback=True, api="send"):
+    def send(self, payload, retry=RetryMode.NONE, callback=True, api="send", cb_raises=False):
         """returns the ledger record; exceptions of the API are recorded in rec['raised'] and re-raised as
         WorldError only if the caller asks (properties decide)"""
         w = self.world
         rec = w.ledger.sent(("c", self.laddr), ("s", self.laddr), payload, _retry_name(retry), w.clock.t, "client." + api)
         rec["connected"] = self.udp.connected()
-        cb = (lambda ok, rec=rec: rec["cb"].append((w.clock.t, ok))) if callback else None
+
+        def cb_(ok, rec=rec):
+            rec["cb"].append((w.clock.t, ok))
+            if cb_raises:
+                raise RuntimeError("application callback raised (injected)")
+        cb = cb_ if callback else None
         try:
             if api == "send_guaranteed":
                 self.udp.send_guaranteed(payload, callback=cb)
@@ -836,7 +841,7 @@ class World(object):
     def server_conn(self, addr):
         return self.ctxt.connections.get(addr)
 
-    def server_send(self, addr, payload, retry=RetryMode.NONE, callback=True, api="send"):
+    def server_send(self, addr, payload, retry=RetryMode.NONE, callback=True, api="send", cb_raises=False):
         rec = self.ledger.sent(("s", addr), ("c", addr), payload, _retry_name(retry), self.clock.t, "server." + api)
         w = self
 
@@ -847,7 +852,11 @@ class World(object):
             if conn is None:
                 rec["raised"] = "no connection"
                 return
-            cb = (lambda ok, rec=rec: rec["cb"].append((w.clock.t, ok))) if callback else None
+            def cb_(ok, rec=rec):
+                rec["cb"].append((w.clock.t, ok))
+                if cb_raises:
+                    raise RuntimeError("application callback raised (injected)")
+            cb = cb_ if callback else None
             try:
                 if api == "send_guaranteed":
                     conn.send_guaranteed(payload, callback=cb)
